@@ -2,6 +2,22 @@
 import chy
 
 
+_STD = None
+
+
+def std_z(sym):
+    """atomic number of a symbol by the standard table of spec/lang/SmilesRead.tla (not by the library's own lookup)"""
+    global _STD
+    if _STD is None:
+        import os, re
+        txt = open(os.path.join(os.path.dirname(__file__), '..', 'spec', 'lang', 'SmilesRead.tla')).read()
+        body = txt[txt.index('Symbols == <<') + 13:]
+        body = body[:body.index('>>')]
+        _STD = {x: i + 1 for i, x in enumerate(re.findall(r'"(\w+)"', body))}
+        assert len(_STD) == 118
+    return _STD[sym]
+
+
 def target_of(m, order=None):
     order = list(m._atoms) if order is None else order
     idx = {n: i + 1 for i, n in enumerate(order)}
@@ -37,7 +53,7 @@ def pattern_of_query(q, order=None):
                 d['kind'] = 'any'
             elif isinstance(a, ListElement):
                 d['kind'] = 'list'
-                d['zs'] = sorted(a.atomic_numbers)
+                d['zs'] = sorted(std_z(x) for x in a._elements)    # the symbols the list names, numbered by the specification's table
             elif isinstance(a, QueryElement):
                 d['kind'] = 'elem'
                 d['zs'] = [a.atomic_number]
